@@ -183,11 +183,12 @@ CODEC_TRUSTED = [
     'std::net: SocketAddr is the transparent enum; SocketAddrV4/V6 are opaque records observed through ip/port accessors with constructor axioms (IPv6 flow info and scope id are not transmitted, the decoder sets them to 0)',
     'R6: SmallVec lists (AddrList, PeerList, RangeList, key bytes) are modelled by Vec (push / pop / with_capacity / iteration only); ring UnparsedPublicKey is an opaque byte container',
 ]
+INIT_DRV = {'file': 'native/init_decoder.rs', 'attach': 'src/crypto/init.rs', 'test': 'handshake_decoder_is_total_and_accepts_only_signed_messages'}
 CODEC_DRV = {'file': 'native/codec_model.rs', 'attach': 'src/messages.rs', 'test': 'node_info_codec_matches_the_format'}
 PROPS['C16'] = {
     'level': 'proof',
-    'native_search': {r'codec::(NodeInfo|Range|Address|lemma|theorem).*': CODEC_DRV},
-    'level_text': 'Proof (Verus, real code, unbounded lengths, termination included): NodeInfo::{decode, decode_internal, decode_peer_list_part, decode_claims_part, read_addr_list, read_addr_list_inner}, Range::read_from, Address::{read_from, read_from_fixed} and RotationMessage::read_from against a format specification written from the wire format (value or error for EVERY byte sequence; unknown parts are skipped; only the length of the three fixed-size known parts is left unspecified when it disagrees with their content); the encoders NodeInfo::{encode_peer_list_part, encode_addrs_part}, Range/Address::write_to, RotationMessage::write_to against byte-exact output specifications; round-trip THEOREMS decode-spec(encode-spec(x)) == normalise(x) for peer lists (at most seven addresses per family, IPv6 first), claim lists and rotation messages. Proof (Kani, full domain): Range/Address codec. NOT decided: the handshake message codec (InitMsg), and the TLV framing on the encoder side (NodeInfo::encode_part / encode_internal: closures over Cursor<&mut [u8]> with seek).',
+    'native_search': {r'codec::(NodeInfo|Range|Address|theorem_(peer|claims)).*': CODEC_DRV, r'codec::InitMsg.*': INIT_DRV},
+    'level_text': 'Proof (Verus, real code, unbounded lengths, termination included): NodeInfo::{decode, decode_internal, decode_peer_list_part, decode_claims_part, read_addr_list, read_addr_list_inner}, Range::read_from, Address::{read_from, read_from_fixed} and RotationMessage::read_from against a format specification written from the wire format (value or error for EVERY byte sequence; unknown parts are skipped; only the length of the three fixed-size known parts is left unspecified when it disagrees with their content); the encoders NodeInfo::{encode_peer_list_part, encode_addrs_part}, Range/Address::write_to, RotationMessage::write_to against byte-exact output specifications; round-trip THEOREMS decode-spec(encode-spec(x)) == normalise(x) for peer lists (at most seven addresses per family, IPv6 first), claim lists and rotation messages. Proof (Kani, full domain): Range/Address codec. InitMsg::read_from (handshake) is proved total and signature-gated, its field values and InitMsg::write_to are NOT decided; NOT decided either: the TLV framing on the encoder side (NodeInfo::encode_part / encode_internal: closures over Cursor<&mut [u8]> with seek).',
     'verus': [{'unit': 'codec', 'rlimit': 60}],
     'kani': {
         'files': {'src/types.rs': ['kani/types.rs']},
@@ -199,7 +200,7 @@ PROPS['C16'] = {
     },
     'trusted': CODEC_TRUSTED + ['std::io::Cursor / byteorder as compiled by Kani (real code, not stubbed) in the Kani harnesses'],
     'not_decided': [
-        'InitMsg::read_from / write_to (handshake message: signature, SmallVec of algorithms, 64 KiB buffers)',
+        'InitMsg::write_to and the field-level decoding specification of InitMsg::read_from (read_from is proved total and to accept only correctly signed messages, its field values are not specified)',
         'NodeInfo::encode_part / encode_internal / encode: the tag-length framing on the encoder side (FnOnce closures over Cursor<&mut [u8]> with seek-back to patch the length); exercised by every node-level test, but not under contract',
         'composition of the part-level round trips into one NodeInfo-level theorem (needs the framing contract)',
         'over-long known fixed-size parts (peer timeout, node id, own addresses with a length other than their content): the format defines nothing, the contract leaves the result open (the decoder continues inside the part)',
@@ -251,9 +252,9 @@ PROPS['C12'] = {
 
 PROPS['C08'] = {
     'level': 'proof',
-    'level_text': 'Proof for the per-peer receive path: MsgBuffer, CryptoCore::decrypt/encrypt (buffer geometry) and PeerCrypto::{handle_message, decrypt_message, encrypt_message, send_message} verbatim in Verus: for EVERY well-formed buffer (any length incl. 0, any content) and every state of the peer object every callee precondition (index bounds, arithmetic, assert!) is established, i.e. no panic. NodeInfo::decode and RotationMessage::read_from (and the Range/Address decoders under them) are total on EVERY byte sequence (unit codec: no panic, no overflow, every loop terminates, allocation bounded by the 16-bit part length). The handshake decoder InitMsg::read_from is NOT decided.',
+    'level_text': 'Proof for the per-peer receive path: MsgBuffer, CryptoCore::decrypt/encrypt (buffer geometry) and PeerCrypto::{handle_message, decrypt_message, encrypt_message, send_message} verbatim in Verus: for EVERY well-formed buffer (any length incl. 0, any content) and every state of the peer object every callee precondition (index bounds, arithmetic, assert!) is established, i.e. no panic. NodeInfo::decode and RotationMessage::read_from (and the Range/Address decoders under them) are total on EVERY byte sequence (unit codec: no panic, no overflow, every loop terminates, allocation bounded by the 16-bit part length). InitMsg::read_from, the decoder every datagram with the handshake marker reaches before anything is known about its sender, is total as well (same unit; Cursor<&[u8]> through the same reader contracts). The rest of the handshake path (InitState::handle_init after the decoder returned) is NOT decided.',
     'verus': [{'unit': 'buffer'}, {'unit': 'cloud', 'fns': ['GenericCloud::handle_net_message', 'GenericCloud::handle_message']},
-              {'unit': 'codec', 'rlimit': 60, 'safety_only': True, 'fns': ['Address::read_from.*', 'Range::read_from', 'NodeInfo::(read_addr_list.*|decode.*)', 'RotationMessage::read_from', 'lemma_flag_fields', 'lemma_prepend2', 'canary_.*']}],
+              {'unit': 'codec', 'rlimit': 60, 'safety_only': True, 'fns': ['Address::read_from.*', 'Range::read_from', 'NodeInfo::(read_addr_list.*|decode.*)', 'RotationMessage::read_from', 'InitMsg::read_from', 'MsgBuffer::.*', 'lemma_flag_fields', 'lemma_prepend2', 'lemma_cur_adv', 'canary_.*']}],
     'kani': {
         'files': {'src/crypto/core.rs': ['kani/coreblocks.rs.in', 'kani/core.rs']},
         'harnesses': [
@@ -265,13 +266,13 @@ PROPS['C08'] = {
                       r'kani::core::decrypt_with_key_contract': WINDOW_DRV,
                       'kani::coreblocks::decrypt_block_contract': {'file': 'native/core_keyid.rs', 'attach': 'src/crypto/core.rs', 'test': 'altered_key_id_is_rejected'}},
     'trusted': [
-        'env (NOT decided): PeerCrypto::handle_init_message -> InitState::handle_init -> InitMsg::read_from is assumed total on every well-formed buffer (150-line TLV parser over Cursor/SmallVec; neither back end reaches it)',
+        'env (NOT decided): PeerCrypto::handle_init_message -> InitState::handle_init is assumed total on every well-formed buffer; its first step, the decoder InitMsg::read_from, is under contract in unit codec',
         'env: PeerCrypto::handle_rotate_message / RotationMessage parsing is reached only after the AEAD opened the datagram, i.e. not by an outsider',
         'the header/AEAD blocks inside CryptoCore::decrypt/encrypt are replaced by stand-ins here (rule B2); they are under contract as blocks in the Kani harnesses coreblocks::{decrypt,encrypt}_block_contract',
         'ring AEAD verdict is an oracle',
     ],
     'not_decided': [
-        'totality of InitMsg::read_from on arbitrary bytes (handshake-marker datagrams reach it before any signature check); NodeInfo::decode and RotationMessage::read_from are proved total in unit codec',
+        'InitState::handle_init / PeerCrypto::handle_init_message after InitMsg::read_from returned (ECDH, payload decryption, stage machine): assumed total; InitMsg::read_from, NodeInfo::decode and RotationMessage::read_from are proved total in unit codec',
         'node level dispatch (GenericCloud::handle_net_message frame) - see unit cloud when claimed',
         'observation (outside the quantifier of C08, sender holds a trusted key): a sealed datagram with EMPTY plaintext makes handle_message call take_prefix on an empty buffer, leaving start = end + 1; the next MsgBuffer::len()/message() underflows/panics',
     ],
@@ -279,6 +280,7 @@ PROPS['C08'] = {
 
 PROPS['C08']['trusted'] = PROPS['C08']['trusted'] + CODEC_TRUSTED
 PROPS['C08']['native_search'][r'codec::(NodeInfo|Range|Address).*'] = CODEC_DRV
+PROPS['C08']['native_search'][r'codec::InitMsg.*'] = INIT_DRV
 
 CLB = 'cloud::__verif_cloudblocks::'
 PROPS['C13'] = {
